@@ -380,6 +380,9 @@ pub fn c16(opts: &Opts) -> Report {
     if want(opts, "dag") {
         run_family(&mut rep, opts, &FamilyRun { prop: "C16", part: "dag", cases: opts.n(if cfg!(miri) { 4 } else { 400 }, 10000), gen: &|s| gen::gen_dag(s, &dopt), set: ExecSet::Full, pools: &[EXECUTOR_SITES, CHANNEL_SITES], nontrivial: &|s, _| s.submodels > 0, predict: true, also: &[] });
     }
+    if want(opts, "reports") {
+        crate::props::c11::run_hierarchy_reports(&mut rep, opts);
+    }
     rep
 }
 
